@@ -85,4 +85,45 @@ theorem vmul_comm (u v : List Rat) : vmul u v = vmul v u := by
   unfold vmul
   exact List.zipWith_comm_of_comm (fun a b => mul_comm a b)
 
+theorem res_scale_one (r : Res) : Res.scale 1 r = r := by
+  cases r <;> simp [Res.scale, Res.map]
+
+theorem res_divBy_one (r : Res) : Res.divBy 1 r = r := by
+  cases r <;> simp [Res.divBy, Res.map]
+
+@[simp] theorem res_scale_num (c q : Rat) : Res.scale c (.num q) = .num (c * q) := rfl
+@[simp] theorem res_divBy_num (c q : Rat) : Res.divBy c (.num q) = .num (q / c) := rfl
+@[simp] theorem res_neg_num (q : Rat) : Res.neg (.num q) = .num (-q) := rfl
+@[simp] theorem res_scale_nan (c : Rat) : Res.scale c .nan = .nan := rfl
+@[simp] theorem res_divBy_nan (c : Rat) : Res.divBy c .nan = .nan := rfl
+@[simp] theorem res_neg_nan : Res.neg .nan = .nan := rfl
+
+theorem res_scale_neg_one (r : Res) : Res.scale (-1) r = Res.neg r := by
+  cases r <;> simp [Res.scale, Res.neg, Res.map]
+
+/-- the two `[:-1]` slices of a history series (times, values), zipped again, are the series without its
+    last entry -/
+theorem zip_dropLast_split (h : Knots) :
+    List.zip (h.map (·.1)).dropLast (h.map (·.2)).dropLast = h.dropLast := by
+  induction h with
+  | nil => rfl
+  | cons a l ih =>
+    cases l with
+    | nil => rfl
+    | cons b l =>
+      simp only [List.map_cons, List.dropLast_cons_cons, List.zip_cons_cons] at ih ⊢
+      rw [ih]
+
+/-- … with the values negated (a new array: `history = -history`) this is the negated series -/
+theorem zip_dropLast_split_neg (h : Knots) :
+    List.zip (h.map (·.1)).dropLast ((h.map (·.2)).dropLast.map (- ·)) = negKnots h.dropLast := by
+  induction h with
+  | nil => rfl
+  | cons a l ih =>
+    cases l with
+    | nil => rfl
+    | cons b l =>
+      simp only [List.map_cons, List.dropLast_cons_cons, List.zip_cons_cons, negKnots] at ih ⊢
+      rw [ih]
+
 end RtcVerif.C15
